@@ -223,11 +223,14 @@ func Equal[K comparable, V any](a, b *Map[K, V]) bool {
 	}
 	i, j := 0, 0
 	for i < len(a.items) && j < len(b.items) {
-		for a.items[i].deleted {
+		for i < len(a.items) && a.items[i].deleted {
 			i++
 		}
-		for b.items[j].deleted {
+		for j < len(b.items) && b.items[j].deleted {
 			j++
+		}
+		if i >= len(a.items) || j >= len(b.items) {
+			break
 		}
 		if a.items[i].Key != b.items[j].Key {
 			return false
